@@ -746,3 +746,205 @@ pub fn c03_threads(cfg: C03Cfg, bound: u32) -> ThHarness {
         }),
     }
 }
+
+// --------------------------------------------------------------------- C08
+
+pub struct C08Cfg {
+    pub pool: u16,
+    pub buf_size: u32,
+    /// Number of ReadBufs handed out and then dropped, one per thread.
+    pub releasers: usize,
+    /// The pool has already performed this many releases.
+    pub shift: u16,
+    /// A further thread polls the ring while the kernel keeps selecting buffers
+    /// for a multishot read.
+    pub reader: bool,
+}
+
+pub fn c08_threads(cfg: C08Cfg, bound: u32) -> ThHarness {
+    let name = format!("threads-pool{}x{}-{}releasers-shift{}{}", cfg.pool, cfg.buf_size, cfg.releasers, cfg.shift, if cfg.reader { "-reader" } else { "" });
+    let describe = json!({"engine": "schx", "pool": cfg.pool, "buf_size": cfg.buf_size, "releasing_threads": cfg.releasers, "tail_shift": cfg.shift, "concurrent_reader": cfg.reader, "preemption_bound": bound});
+    let cfg = Arc::new(cfg);
+    ThHarness {
+        name,
+        bound,
+        cap_s: 0,
+        describe,
+        mk: Box::new(move || {
+            let cfg = cfg.clone();
+            simk::reset(simk::SetupPlan::default());
+            talloc::set_on_free(Some(simk::on_free));
+            let (mut ring, sq, fd, pool) = talloc::track(|| {
+                let ring = Ring::config().with_submission_queue_size(4).build().expect("ring");
+                let sq = ring.sq();
+                let raw = simk::with(|k| k.new_regular_pub());
+                let fd: &'static AsyncFd = Box::leak(Box::new(unsafe { AsyncFd::from_raw_fd(raw, sq.clone()) }));
+                let pool = a10::io::ReadBufPool::new(sq.clone(), cfg.pool, cfg.buf_size).expect("pool");
+                (ring, sq, fd, pool)
+            });
+            // Buffer addresses by id.
+            let bufs: Vec<(usize, u32)> = simk::with(|k| {
+                let pb = &k.rings[0].pbufs[0];
+                let mut v = vec![(0usize, 0u32); pb.entries as usize];
+                for i in 0..pb.entries as usize {
+                    let e = unsafe { std::ptr::read_volatile((pb.addr + i * 16) as *const BufRingEntry) };
+                    v[e.bid as usize] = (e.addr as usize, e.len);
+                }
+                v
+            });
+            if cfg.shift != 0 {
+                simk::with(|k| {
+                    let pb = &mut k.rings[0].pbufs[0];
+                    let tail = unsafe { &*((pb.addr + 14) as *const std::sync::atomic::AtomicU16) };
+                    tail.fetch_add(cfg.shift, std::sync::atomic::Ordering::SeqCst);
+                    pb.head = pb.head.wrapping_add(cfg.shift);
+                });
+            }
+            // Obtain the ReadBufs through a multishot read.
+            let env = ops::Env { sq: &sq, fd, pool: Some(&pool), nth: 0 };
+            let mut op = ops::make(Kind::MultishotRead, &env);
+            let w = HWaker::new(1);
+            {
+                let mut cx = Context::from_waker(&w.waker);
+                assert_eq!(op.poll(&mut cx), Seen::Pending);
+            }
+            talloc::track(|| ring.poll(Some(Duration::ZERO)).unwrap());
+            let serial = simk::with(|k| k.inflight()[0]);
+            for _ in 0..cfg.releasers {
+                simk::with(|k| k.complete(serial, Out::More(i32::MIN)));
+            }
+            talloc::track(|| ring.poll(Some(Duration::ZERO)).unwrap());
+            let mut handed = Vec::new();
+            for _ in 0..cfg.releasers {
+                let mut cx = Context::from_waker(&w.waker);
+                match op.poll(&mut cx) {
+                    Seen::Ready(_) => {}
+                    other => panic!("expected a buffer, got {other:?}"),
+                }
+            }
+            {
+                let mut b = op.bufs.borrow_mut();
+                while let Some(buf) = b.pop() {
+                    handed.push(Sendable(buf));
+                }
+            }
+            let tail0 = simk::with(|k| unsafe { &*((k.rings[0].pbufs[0].addr + 14) as *const std::sync::atomic::AtomicU16) }.load(std::sync::atomic::Ordering::SeqCst));
+            let ring_slot: Arc<Mutex<Option<Sendable<Ring>>>> = Arc::new(Mutex::new(Some(Sendable(ring))));
+            let mut bodies: Vec<(String, Body)> = Vec::new();
+            for (t, buf) in handed.into_iter().enumerate() {
+                bodies.push((
+                    format!("releaser{t}"),
+                    Box::new(move || {
+                        talloc::track(|| drop(buf));
+                    }),
+                ));
+            }
+            let mut actors = Vec::new();
+            if cfg.reader {
+                let ring_slot = ring_slot.clone();
+                bodies.push((
+                    "ring".into(),
+                    Box::new(move || {
+                        let mut ring = ring_slot.lock().unwrap().take().unwrap();
+                        for _ in 0..2 {
+                            talloc::track(|| {
+                                let _ = ring.0.poll(Some(Duration::ZERO));
+                            });
+                        }
+                        *ring_slot.lock().unwrap() = Some(ring);
+                    }),
+                ));
+                // The kernel selects another buffer whenever one is available (at most twice).
+                let budget = Arc::new(Mutex::new(2u32));
+                let b2 = budget.clone();
+                actors.push(Actor {
+                    name: "kernel-selects-buffer".into(),
+                    enabled: Box::new(move || {
+                        *b2.lock().unwrap() > 0
+                            && simk::with(|k| {
+                                let pb = &k.rings[0].pbufs[0];
+                                let tail = unsafe { &*((pb.addr + 14) as *const std::sync::atomic::AtomicU16) }.load(std::sync::atomic::Ordering::SeqCst);
+                                tail != pb.head
+                            })
+                    }),
+                    step: Box::new(move || {
+                        *budget.lock().unwrap() -= 1;
+                        simk::with(|k| {
+                            if let Some(s) = k.inflight().first().copied() {
+                                k.complete(s, Out::More(i32::MIN));
+                            }
+                        })
+                    }),
+                });
+            }
+            let releasers = cfg.releasers;
+            let op = Sendable(op);
+            let sq = Sendable(sq);
+            let pool = Sendable(pool);
+            let judge = Box::new(move |_exec: &Exec| -> Vec<Violation> {
+                let (op, sq, pool) = (op, sq, pool);
+                let mut v = sim_violations("C08");
+                // Buffers the kernel selected during the run and that are still
+                // in completions / owned by the stream.
+                let selected_during: Vec<u16> = simk::with(|k| {
+                    k.reqs.iter().flat_map(|r| r.outs.iter().skip(if r.opcode == OP_READ_MULTISHOT { releasers } else { 0 }).filter(|o| o.flags & CQE_F_BUFFER != 0).map(|o| (o.flags >> CQE_BUFFER_SHIFT) as u16).collect::<Vec<_>>()).collect()
+                });
+                let (offered, tail, bad): (Vec<u16>, u16, Vec<String>) = simk::with(|k| {
+                    let pb = &k.rings[0].pbufs[0];
+                    let tail = unsafe { &*((pb.addr + 14) as *const std::sync::atomic::AtomicU16) }.load(std::sync::atomic::Ordering::SeqCst);
+                    let mut o = Vec::new();
+                    let mut bad = Vec::new();
+                    let mut h = pb.head;
+                    let mut guard = 0;
+                    while h != tail && guard < 70000 {
+                        let idx = (h as u32 & (pb.entries - 1)) as usize;
+                        let e = unsafe { std::ptr::read_volatile((pb.addr + idx * 16) as *const BufRingEntry) };
+                        o.push(e.bid);
+                        match bufs.get(e.bid as usize) {
+                            Some((a, l)) if *a == e.addr as usize && *l == e.len => {}
+                            _ => bad.push(format!("entry {idx}: addr={:#x} len={} bid={}", e.addr, e.len, e.bid)),
+                        }
+                        h = h.wrapping_add(1);
+                        guard += 1;
+                    }
+                    (o, tail, bad)
+                });
+                for b in bad {
+                    v.push(Violation::new("C08", "bad-ring-entry", &format!("buffer ring entry does not describe its buffer: {b}")));
+                }
+                if tail != tail0.wrapping_add(releasers as u16) {
+                    v.push(Violation::new("C08", "tail-mismatch", &format!("{releasers} buffers were released but the ring tail moved from {tail0} to {tail}")));
+                }
+                let mut all: Vec<u16> = offered.iter().copied().chain(selected_during.iter().copied()).collect();
+                all.sort();
+                let want: Vec<u16> = (0..bufs.len() as u16).collect();
+                if all != want {
+                    let mut d = all.clone();
+                    d.dedup();
+                    let sig = if d.len() != all.len() { "offered-twice" } else { "buffer-lost" };
+                    v.push(Violation::new("C08", sig, &format!("after {releasers} concurrent releases the kernel is offered {offered:?} and has selected {selected_during:?}; every buffer of {want:?} must appear exactly once")));
+                }
+                if !v.is_empty() {
+                    std::mem::forget(op);
+                    std::mem::forget(pool);
+                    std::mem::forget(ring_slot.lock().unwrap().take());
+                    simk::shutdown();
+                    talloc::disarm();
+                    return v;
+                }
+                let ring = ring_slot.lock().unwrap().take();
+                talloc::track(|| {
+                    drop(op);
+                    drop(pool);
+                    drop(unsafe { Box::from_raw(std::ptr::from_ref(fd).cast_mut()) });
+                    drop(ring);
+                    drop(sq);
+                });
+                simk::shutdown();
+                talloc::disarm();
+                v
+            });
+            ThSetup { bodies, actors, judge }
+        }),
+    }
+}
